@@ -13,7 +13,7 @@ rm -rf "$DST/demo"; cp -r "$SRC/demo$L" "$DST/demo"; rm -rf "$DST/demo/target" "
 find "$DST/demo" -name '*.log' -size +200k -delete
 res() { echo "$1" >> "$DST/confirm.log"; }
 : > "$DST/confirm.log"
-export CARGO_TARGET_DIR="$WT/target"
+unset CARGO_TARGET_DIR
 # demo on the unmodified tree
 ( cd "$DST/demo" && timeout 900 bash ./run.sh "$WT" ) > "$DST/demo.without.log" 2>&1; rc_without=$?
 git -C "$WT" apply "$DST/patch.diff" || { res "apply failed"; echo '{"confirmed": false, "why": "patch does not apply"}' > "$DST/meta.json"; git -C /repo worktree remove --force "$WT"; exit 1; }
